@@ -28,6 +28,7 @@ REWRITES = {
     "R6": "visibility `pub(super)` / `pub(crate)` / private -> `pub`; struct fields made `pub` (open spec fns need them); #[derive(..)], #[struct_meta(..)] attributes on copied types dropped",
     "R9": "`C.iter().rev()` over a const slice literal C -> external fn C_r2_rev() whose spec is the reversed literal (semantics of slice::iter().rev() trusted)",
     "R11": "`for x in [a, b] { BODY }` over an array literal -> unrolled blocks `{ let x = a; BODY } { let x = b; BODY }`",
+    "R12": "`let v = RECV.and_then(|p| BODY);` -> `let v = match RECV { Some(p) => BODY, None => None };` (definition of Option::and_then; closures in argument position unsupported)",
     "R10": "`a | b` on two bool places (field / local reads) -> `a || b` (Verus rejects `|` on bool)",
     "R8": "`impl Trait` / `impl Fn(..)` argument position and generic closures: `to_expr: impl Fn(&FieldEntry) -> TokenStream` kept; only if listed per function",
 }
@@ -331,11 +332,34 @@ def rw_R5(t):
     return re.subn(r'(\w+(?:\.\w+)*)\.extend\((\w+(?:\.\w+)*)\.iter\(\)\.cloned\(\)\)', r'vec_extend_cloned(&mut \1, &\2)', t)
 
 
+def rw_R12(t):
+    """`let v = RECV.and_then(|p| BODY);` -> `let v = match RECV { Some(p) => BODY, None => None };` (the definition of Option::and_then;
+    closures in argument position are outside the Verus attribute dialect)"""
+    n = 0
+    while True:
+        m = re.search(r'\.and_then\(\|(\w+)\|\s*', t)
+        if not m:
+            break
+        mask = code_mask(t)
+        op = t.index('(', m.start())
+        cp = match_close(t, mask, op)
+        body = t[m.end():cp].strip()
+        # receiver: back to the `=` of the enclosing let statement
+        eq = t.rfind('=', 0, m.start())
+        let = t.rfind('let ', 0, eq)
+        if eq < 0 or let < 0 or ';' in t[let:m.start()]:
+            raise Undecided("R12: and_then not in `let v = RECV.and_then(|p| BODY)` form")
+        recv = " ".join(t[eq + 1:m.start()].split())
+        t = t[:eq + 1] + " match %s { Some(%s) => %s, None => None }" % (recv, m.group(1), body) + t[cp + 1:]
+        n += 1
+    return t, n
+
+
 def rw_vis(t):
     return re.subn(r'\bpub\((?:super|crate)\)\s+', 'pub ', t)
 
 
-RW = {"R11": rw_R11, "R10": rw_R10, "R9": rw_R9, "R1": rw_R1, "R3": rw_R3, "R4": rw_R4, "R5": rw_R5, "R2u": rw_R2_uses}
+RW = {"R12": rw_R12, "R11": rw_R11, "R10": rw_R10, "R9": rw_R9, "R1": rw_R1, "R3": rw_R3, "R4": rw_R4, "R5": rw_R5, "R2u": rw_R2_uses}
 
 
 def _occ(text, anchor, n):
